@@ -27,6 +27,7 @@ from jug.backends.file_store import file_store
 M = 3                                  # values are integers mod M, or pairs of those
 MODNAME = 'jvjf'
 MARKMOD = 'jugv_marks'
+TOPMARK = 999999                       # the marker at the top of every generated jugfile (counts the loads)
 
 PRELUDE = '''from jug import TaskGenerator, barrier, bvalue, value
 from jug.compound import CompoundTaskGenerator
@@ -149,7 +150,7 @@ class Gen:
 
     def int_arg(self, env, allow_const=True):
         rng = self.rng
-        cands = [{'t': v} for (v, ty, _) in env if ty == 'int' and _ != 'val']
+        cands = [{'t': v} for (v, ty, _) in env if ty == 'int']
         vals = [{'v': v, 'val': x} for (v, ty, x) in env if ty == 'known']
         r = rng.random()
         if cands and r < 0.7:
@@ -438,7 +439,7 @@ def render_python(prog):
             raise AssertionError(op)
 
     main = {'lines': [], 'in_body': False}
-    main['lines'].append('mark(0)')
+    main['lines'].append('mark(%d)' % TOPMARK)
     block(prog, 0, main)
     return PRELUDE + '\n\n'.join(funcs) + '\n\n' + '\n'.join(main['lines']) + '\n'
 
@@ -600,7 +601,7 @@ def render_coq(prog, it):
             body = walk(node['body'], dict((p, env[p]) for p in node['params']))
             return '(Compound %d [%s]\n %s\n %s)' % (it.desc_id(d), cargs, body, walk(node['k'], dict(env, **{node['var']: d})))
         raise AssertionError(op)
-    return '(Mark 1000000 %s)' % walk(prog, {})       # the mark(0) at the top of every jugfile
+    return '(Mark %d %s)' % (TOPMARK, walk(prog, {}))
 
 
 def coq_store(items, it):
@@ -760,3 +761,23 @@ def store_items(store):
     for k in store.list():
         res[hx(k)] = store.load(k)
     return res
+
+
+class ReplayCheck(core.Check):
+    """a Check for replay(): no side effects on /verif/replays, violations are only collected"""
+    def __init__(self, prop, seed=0):
+        import random
+        import time
+        self.prop, self.tier, self.seed = prop, 'quick', seed
+        self.rng = random.Random(seed)
+        self.t0 = time.time()
+        self.violations, self.known_lines, self.obligations, self.samples = [], [], [], []
+        self.counts, self.notes, self.assumptions, self.trusted_base = {}, [], [], []
+        self.case_total, self.case_distinct, self.dist, self.replay_n = 0, set(), {}, 0
+        self.broken, self.viol_by_what, self.suppressed, self.known_findings = [], {}, 0, []
+        self.found = []
+        os.makedirs(core.CASEDIR, exist_ok=True)
+
+    def violation(self, replay_obj, found_input=True):
+        self.found.append(replay_obj)
+        return None
